@@ -624,6 +624,9 @@ def invalid_configs(tier):
     c = base(); c["nodes"][1]["pd"] = -1; c["why"] = "negative constant processing delay"; out.append(c)
     c = base(); c["nodes"][1]["pd"] = ("gen", [-0.5]); c["why"] = "negative processing delay from a generator"; out.append(c)
     c = base(); c["nodes"][0]["iat"] = 0; c["nodes"][0]["blocking"] = False; c["why"] = "non-blocking source with zero inter-arrival time"; out.append(c)
+    for z in (0.0, -0.0, False):
+        c = base(); c["nodes"][0]["iat"] = z; c["nodes"][0]["blocking"] = False
+        c["why"] = "non-blocking source with zero inter-arrival time given as %r" % (z,); out.append(c)
     c = base(); c["nodes"][0]["iat"] = ("call", [-1], 2); c["why"] = "negative inter-arrival time"; out.append(c)
     c = base(); c["edges"] = c["edges"][:1]; c["nodes"] = c["nodes"][:2]; c["why"] = "machine without out-edge"; out.append(c)
     c = base(); c["edges"] = c["edges"][1:]; c["nodes"] = c["nodes"][1:]; c["why"] = "machine without in-edge"; out.append(c)
